@@ -1110,6 +1110,18 @@ def run(tier):
               'the input file the user gave: the path options are not '
               'replaced by resolved or derived paths (a resolved symlink '
               'has another extension; shared with C06.R8)', sub6)
+    from .. import streams
+    chk.guard(streams.report, chk, prog, 'C09.R12',
+              'the run record carries each stream under its own name: the '
+              'field out receives stdout, err receives stderr, exit the '
+              'return code - by position in the declared field order',
+              '--ignore-out / --ignore-err / --match-out / --match-err act on the other stream: candidates are accepted or rejected against the documentation')
+    from .. import sigchld
+    chk.guard(sigchld.report, chk, prog, 'C09.R13',
+              'the disposition of SIGCHLD is never changed and no process '
+              'waits for "any child": the exit code of the command reaches '
+              'the comparison',
+              'a candidate on which the command crashes is accepted whenever the golden exit code is 0')
     extra = None
     if tier == 'thorough':
         from .. import selftest
